@@ -276,7 +276,7 @@ func recognise(name, h string) recog {
 		if strings.Contains(fr[1], ",") || strings.Contains(fr[2], ",") {
 			return bad
 		}
-		if !inAlpha(fr[1], b64Std) || len(fr[1]) < 11 || !inAlpha(fr[2], b64Std) || fr[2] == "" {
+		if !inAlpha(fr[1], b64Std) || len(fr[1]) < 11 || !inAlpha(fr[2], b64Std) {
 			return bad
 		}
 		if version != 0x10 && version != 0x13 {
